@@ -117,10 +117,23 @@ def assertion_rule(run, ctx):
             run.violation(fam, label, "vm/" + var, H.where(arm), "%s must be decided by LookMatcher::%s at (s, ix), found %s" % (var, meth, body))
     # the VM fails the thread iff the assertion is false
     c = H.canon(a[0]["body"])
-    if not c.startswith("if !match "):
-        run.violation(fam, label, "vm-polarity", H.where(a[0]), "the Assertion arm must fail when the look-matcher answers false (found %s...)" % c[:40])
-    elif not c.endswith("{break 'fail}"):
-        run.violation(fam, label, "vm-polarity-fail", H.where(a[0]), "the Assertion arm must `break 'fail` on a false assertion")
+    # path-based: on every path the look-matcher's answer decides: false -> fail, true -> go on
+    pol = {True: 0, False: 0}
+    pbad = None
+    for p in S.paths_of(a[0]["body"]):
+        sm = S.Summary(p)
+        ans = [(t, tr) for t, tr, _, _ in sm.conds if "look_matcher." in t]
+        if not ans:
+            pbad = "a path does not consult the look-matcher"
+            break
+        t, tr = ans[-1]
+        failing = p.exit == "break" and p.label == "'fail"
+        if (tr and failing) or (not tr and not failing) or any(ev.kind == "assign" for ev in p.events):
+            pbad = "polarity: %s is %s but the thread %s" % (t[:40], tr, "fails" if failing else "continues")
+            break
+        pol[bool(tr)] += 1
+    if pbad or min(pol.values()) < 1:
+        run.violation(fam, label, "vm-polarity", H.where(a[0]), "the Assertion arm must fail exactly when the look-matcher answers false (%s; found %s...)" % (pbad or pol, c[:60]))
     # to_str column
     ts_fn = S.get_fn(run, ctx, "Expr::to_str", fam, label)
     if ts_fn is None:
@@ -607,37 +620,107 @@ def printable_rule(run, ctx):
         n += 1
         if not H.pat_match("buf.push('('); {c}.to_str(buf,0); buf.push(')')", c):
             run.violation(fam, label, "group", H.where(a), "Expr::Group must be printed as a plain capture group `(` child `)` so that group numbering is preserved, found %s" % c)
-    for a in arms.get("Literal", []):
-        c = H.canon(a["body"])
-        n += 1
-        if not H.pat_match('if {ci} {buf.push_str("(?i:")}; push_quoted(buf,{v}); if {ci} {buf.push_str(")")}', c):
-            run.violation(fam, label, "literal", H.where(a), "Expr::Literal must be printed quoted (push_quoted) and wrapped in (?i:..) iff case-insensitive, found %s" % c)
-    for a in arms.get("Delegate", []):
-        c = H.canon(a["body"])
-        n += 1
-        if not H.pat_match('if {ci} {buf.push_str("(?i:")}; buf.push_str({v}); if {ci} {buf.push_str(")")}', c):
-            run.violation(fam, label, "delegate", H.where(a), "Expr::Delegate must print its inner pattern wrapped in (?i:..) iff case-insensitive, found %s" % c)
+    # what each arm prints, decided per path under sample valuations of the arm's scalar fields: the samples are the
+    # boundary values of every integer constant the arm mentions (and their neighbours), so any code that decides
+    # by comparing those fields with constants or with each other is covered region by region
+    BUF = ts_fn["params"][1].get("name") or "buf"
+    PREC = ts_fn["params"][2].get("name") or "precedence"
+
+    def fieldnames(a):
+        out = {}
+        for p_ in H.walk(a["pat"]):
+            if p_.get("k") == "StructPat":
+                for f_ in p_.get("fields") or []:
+                    if (f_.get("pat") or {}).get("k") == "Binding":
+                        out[f_["name"]] = f_["pat"]["name"]
+        return out
+
+    def printed_text(p):
+        sm = S.Summary(p)
+        out = ""
+        for c_ in sm.calls:
+            m_ = re.match(r"^%s\.push\('(.*)'\)$" % re.escape(BUF), c_) or re.match(r'^%s\.push_str\("(.*)"\)$' % re.escape(BUF), c_)
+            if m_:
+                out += m_.group(1)
+                continue
+            m_ = re.match(r"^%s\.push_str\((.*)\)$" % re.escape(BUF), c_)
+            if m_:
+                out += "<str %s>" % m_.group(1).lstrip("&")
+                continue
+            m_ = re.match(r"^(?:\w+::)*push_usize\(%s,(.*)\)$" % re.escape(BUF), c_)
+            if m_:
+                out += "<num %s>" % m_.group(1)
+                continue
+            m_ = re.match(r"^(?:\w+::)*push_quoted\(%s,(.*)\)$" % re.escape(BUF), c_)
+            if m_:
+                out += "<quoted %s>" % m_.group(1).lstrip("&")
+                continue
+            m_ = re.match(r"^(.*)\.to_str\(%s,(.*)\)$" % re.escape(BUF), c_)
+            if m_:
+                out += "<expr %s @%s>" % (m_.group(1), m_.group(2))
+                continue
+            if BUF in re.findall(r"\w+", c_):
+                out += "<?%s>" % c_
+        return out
+
+    def decide(a, val, what):
+        got = [p for p in S.paths_of(a["body"]) if S.consistent(p, val) is not False]
+        sure = [p for p in got if S.consistent(p, val) is True]
+        if len(got) != 1 or len(sure) != 1:
+            return None
+        return printed_text(got[0])
+
+    for v_, fld, form in (("Literal", "val", "<quoted %s>"), ("Delegate", "inner", "<str %s>")):
+        for a in arms.get(v_, []):
+            n += 1
+            fn_ = fieldnames(a)
+            ci, vv = fn_.get("casei"), fn_.get(fld)
+            if ci is None or vv is None:
+                run.violation(fam, label, v_.lower(), H.where(a), "anchor-missing: Expr::%s arm of to_str does not bind %s and casei" % (v_, fld))
+                continue
+            for casei in (True, False):
+                got = decide(a, {ci: casei}, v_)
+                want = ("(?i:%s)" if casei else "%s") % (form % vv)
+                if got != want:
+                    run.violation(fam, label, v_.lower(), H.where(a), "Expr::%s must be printed %s and wrapped in (?i:..) iff case-insensitive: for casei=%s expected %s, found %s" % (v_, "quoted (push_quoted)" if v_ == "Literal" else "as its inner pattern", casei, want, got))
+                    break
     # repeat suffix table
     for a in arms.get("Repeat", []):
-        mm = [nd for nd in H.walk(a["body"]) if nd.get("k") == "Match"]
         n += 1
-        tbl = {}
-        if mm:
-            for arm in mm[0]["arms"]:
-                tbl[H.pat_canon(arm["pat"])] = H.canon(arm["body"])
-        extra = [k_ for k_ in tbl if k_ not in ("(0,1)", "(0,MAX)", "(1,MAX)", "(lo,hi)")]
-        if extra:
-            run.violation(fam, label, "repeat/extra-arms", H.where(a), "the repeat suffix table of to_str has additional special cases %s: every bound pair other than ?, *, + must be printed as {lo}, {lo,} or {lo,hi} (a special case changes what the trailing lazy `?` applies to)" % extra)
-        want = {"(0,1)": "buf.push('?')", "(0,MAX)": "buf.push('*')", "(1,MAX)": "buf.push('+')"}
-        for k_, v_ in want.items():
-            if tbl.get(k_) != v_:
-                run.violation(fam, label, "repeat/" + k_, H.where(a), "Repeat %s must print %s, found %s" % (k_, v_, tbl.get(k_)))
-        gen = tbl.get("(lo,hi)", "")
-        if "buf.push('{'); push_usize(buf,lo); if (hi != lo) {buf.push(','); if (MAX != hi) {push_usize(buf,hi)}}; buf.push('}')" not in gen.replace("(lo != hi)", "(hi != lo)").replace("(hi != MAX)", "(MAX != hi)"):
-            run.violation(fam, label, "repeat/general", H.where(a), "general repeat must print {lo}, {lo,} or {lo,hi}; found %s" % gen)
-        c = H.canon(a["body"])
-        if "if !greedy {buf.push('?')}" not in c:
-            run.violation(fam, label, "repeat/lazy", H.where(a), "a lazy repeat must print a trailing `?`")
+        fn_ = fieldnames(a)
+        if not all(k_ in fn_ for k_ in ("child", "lo", "hi", "greedy")):
+            run.violation(fam, label, "repeat/anchor", H.where(a), "anchor-missing: Expr::Repeat arm of to_str does not bind child, lo, hi, greedy")
+            continue
+        LO, HI, GR, CH = fn_["lo"], fn_["hi"], fn_["greedy"], fn_["child"]
+        consts = {0, 1, 2, S.UMAX}
+        for c_ in S.int_constants(a["body"]):
+            consts |= {c_, c_ + 1, max(0, c_ - 1)}
+        consts |= {S.UMAX - 1}
+        vals = sorted(x for x in consts if 0 <= x <= S.UMAX)
+        bad = {}
+        nsamp = 0
+        for lo_ in vals:
+            for hi_ in vals:
+                for gr_ in (True, False):
+                    for pr_ in (0, 1, 2, 3, 4):
+                        nsamp += 1
+                        got = decide(a, {LO: lo_, HI: hi_, GR: gr_, PREC: pr_}, "Repeat")
+                        suffix = {(0, 1): "?", (0, S.UMAX): "*", (1, S.UMAX): "+"}.get((lo_, hi_))
+                        key = "(%s,%s)" % (lo_ if lo_ != S.UMAX else "MAX", hi_ if hi_ != S.UMAX else "MAX")
+                        if suffix is None:
+                            suffix = "{<num %s>" % LO + ("" if lo_ == hi_ else "," + ("" if hi_ == S.UMAX else "<num %s>" % HI)) + "}"
+                            key = "general"
+                        want = ("(?:" if pr_ > 2 else "") + "<expr %s @3>" % CH + suffix + ("" if gr_ else "?") + (")" if pr_ > 2 else "")
+                        g2 = got
+                        if got is not None and lo_ == hi_:
+                            g2 = got.replace("<num %s>" % HI, "<num %s>" % LO)
+                        if g2 != want:
+                            kind = "lazy" if (got is not None and not gr_ and got.replace("?", "") == want.replace("?", "")) else key
+                            bad.setdefault(kind, (lo_, hi_, gr_, pr_, want, got))
+        for kind, (lo_, hi_, gr_, pr_, want, got) in sorted(bad.items()):
+            msg = {"lazy": "a lazy repeat must print a trailing `?`", "general": "general repeat must print {lo}, {lo,} or {lo,hi} (every bound pair other than ?, *, + -- a special case changes what the trailing lazy `?` applies to)"}.get(kind, "Repeat %s must print its one-character suffix" % kind)
+            run.violation(fam, label, "repeat/" + kind, H.where(a), "%s: for lo=%s hi=%s greedy=%s precedence=%s expected %s, found %s" % (msg, lo_, "MAX" if hi_ == S.UMAX else hi_, gr_, pr_, want, got))
+        run.floor(fam, label + "/repeat-samples", H.where(a), nsamp, 250, "sample valuations of (lo, hi, greedy, precedence) decided for the Repeat arm")
     run.ok(fam, label, H.where(ts_fn), n + len(allv), "%d Expr variants: printed %s; hard %s" % (len(allv), sorted(printed), sorted(allv - printed)))
     # push_usize prints decimal digits
     fn = S.get_fn(run, ctx, "push_usize", fam, "push_usize")
@@ -873,7 +956,24 @@ def slot_rule(run, ctx):
         inside = [x for ci in copy_ifs for x in H.walk(ci["then"]) if x.get("k") == "MethodCall" and x["name"] == "save"]
         need(len(saves_in_loop) == len(inside) == 2, "copy-writes", "the Delegate arm writes capture slots only for participating groups (exactly the start and end of the pair)")
         need("ix = inner_slots[1].unwrap().get()" in c, "advance", "after a delegate with groups ix becomes the delegate's overall end (slot 1)")
-        need("if %s.search_slots(input,inner_slots).is_some()" % IN in c and "else {break 'fail}" in c, "search-fail", "a failed delegate search fails the thread")
+        # path-based: with groups, the outcome of search_slots decides: none -> fail without writing, some -> copy + advance
+        sf_ok = {"some": 0, "none": 0}
+        sf_bad = None
+        for p in fam_vm.fpaths(arm["body"]):
+            oc = S.opt_outcomes(p, "%s.search_slots({*})" % IN)
+            if not oc:
+                continue
+            i0, kind, _ = oc[0]
+            rest_ = p.events[i0:]
+            wrote = any(ev.kind == "assign" and ev.a == "ix" for ev in rest_) or any(ev.kind == "call" and (ev.a or "").startswith("state.save(") for ev in rest_)
+            if kind == "none":
+                if not (p.exit == "break" and p.label == "'fail") or wrote:
+                    sf_bad = "a failed search must fail the thread without touching ix or the slots"
+            else:
+                if p.exit == "break" or not any(ev.kind == "assign" and ev.a == "ix" for ev in rest_):
+                    sf_bad = "a successful search must continue with ix advanced"
+            sf_ok[kind] += 1
+        need(sf_bad is None and min(sf_ok.values()) >= 1, "search-fail", "a failed delegate search fails the thread" + (" (%s)" % sf_bad if sf_bad else ""))
     # the two representations of captures the rules below know about: a third one needs rules of its own
     ci = [a for p_, a in ctx.facts.adts.items() if strip_generics(p_) == "CapturesImpl"]
     if len(ci) != 1 or {v_["name"] for v_ in ci[0]["variants"]} != {"Wrap", "Fancy"}:
@@ -893,8 +993,14 @@ def slot_rule(run, ctx):
             run.violation(fam, label, "get/anchor", H.where(g), "anchor-missing: CapturesImpl::Fancy arm of Captures::get")
         else:
             okp = {"beyond": 0, "unset": 0, "some": 0}
-            for p in fam_vm.fpaths(fancy["body"]):
+            # paths of the whole function that go through the Fancy arm (the arm may hand its result on to code after
+            # the match, e.g. as a tuple that a common tail turns into the Match)
+            fancy_paths = [p for p in fam_vm.fpaths(g["body"]) if any(ev.kind == "arm" and ev.node is fancy for ev in p.events)]
+            for p in fancy_paths:
                 v = S.ret_value(p)
+                if v is not None:
+                    v = S.Summary(p).val or v
+                    v = re.sub(r"\*(\w)", r"\1", v)
                 if v is None:
                     lets0 = {ev.a: ev.b for ev in p.events if ev.kind == "let"}
                     if p.exit == "try-err" and any(ev.kind == "try-err" and H.subst_lets(ev.a or "", lets0) == "saves.get((2 * %s))" % I for ev in p.events):
@@ -942,7 +1048,7 @@ def slot_rule(run, ctx):
         n += 2
         if "n_groups:info.end_group" not in c:
             run.violation(fam, label, "n_groups", H.where(no), "n_groups must be the analysed tree's end_group (number of groups incl. group 0)")
-        if "let inner_info = info.children[1].children[0]; if !inner_info.hard" not in c:
+        if "let inner_info = info.children[1].children[0]; if !inner_info.hard" not in c and "if !info.children[1].children[0].hard" not in c:
             run.violation(fam, label, "handoff-test", H.where(no), "the whole-pattern hand-off must be decided by the hardness of the user's expression inside wrap_tree's group (info.children[1].children[0])")
         # path-based: what is printed for the inner engine was destructured as Group(..) out of element 1 of the
         # Concat that wrap_tree built around the user's expression (match, if let or let-else alike)
